@@ -124,7 +124,7 @@ func oracleFor(op *Sexp, res string) []string {
 		return oracleTagtool(op, res)
 	case "jrt":
 		return oracleJRT(op, res)
-	case "jdeep":
+	case "jdeep", "tdeep":
 		return oracleJDeep(op, res)
 	case "build":
 		return oracleBuild(op, res)
@@ -257,6 +257,14 @@ func oracleFor(op *Sexp, res string) []string {
 			n, _ := strconv.Atoi(fields[1])
 			if n > len(d) || n < 0 {
 				bad("Skip returned %d for %d bytes of input", n, len(d))
+			}
+		}
+		if arg(1) == "0" {
+			// a varint field: exactly what the standard varint reader says (truncated, or more than 64 bits: an error)
+			if _, n := refUvarint(d); n > 0 && res != "ok "+strconv.Itoa(n) {
+				bad("Skip over a varint of %d bytes returned %q", n, res)
+			} else if n <= 0 && res != "err" {
+				bad("Skip over a truncated or overflowing varint returned %q, the standard reader rejects it", res)
 			}
 		}
 	case "skipwf":
@@ -432,7 +440,7 @@ func oracleFor(op *Sexp, res string) []string {
 		if res != "err" && !strings.HasPrefix(res, "ok") && res != "builderr" {
 			bad("decode outcome %q", res)
 		}
-	case "dec":
+	case "dec", "decdeep":
 		if res != "err" && !strings.HasPrefix(res, "ok ") && res != "builderr" {
 			bad("decode outcome %q", res)
 		}
